@@ -11,22 +11,23 @@ def _clock_typed(src):
 SPEC = dict(
     id="C02",
     level_text=(
-        "PARTIAL, with two findings. The full statement C02_full (for ALL byte strings b: observe(Decode typed=on b) = "
-        "observe(Decode typed=off b)) is FALSE of the current tree: C02_full_witness_skip / C02_full_witness_dup are "
-        "machine-checked counterexamples in the model and the harness reproduces both on the real code (keys below). "
-        "Proved in Lean 4 for all inputs and any float semantics satisfying FloatLaws (float32->float64 widening commutes "
-        "with int64 conversion and the range tests): C02_fallback_sound / C02_differs_only_on_hit (a typed miss IS the generic "
-        "path); the per-class content of C02_hit_agrees — C02_valueColumn_agrees (int, float, string, bool and all-nil "
-        "columns: any widths, nils anywhere, numeric cross-coercion, uint64>MaxInt64 and out-of-range floats), "
-        "C02_timeColumn_agrees (unit from element 0 in both paths, scaling, wrap), C02_measurement_agrees, the five "
-        "C02_*Elem_agrees; C02_roundtrip_leaf (byte decoder vs encoder at every leaf width); and by `decide` over tables "
-        "regenerated from the current sources: C02_units_same (thresholds 1e10/1e13/1e16 and multipliers identical in "
-        "normalizeTimestampColumns and decodeTimeColumnTyped), C02_accepted_kinds, C02_guards, C02_code_classes, C02_prealloc. "
-        "NOT proved, only validated by the differential harness (0 disagreements): the map-level glue from the per-column "
-        "theorems to C02_hit_agrees under the carve-out `Carve` (top-level/columns key handling, last-wins de-duplication, "
-        "length check, generated time column), the container arms of the round trip, and that the tree-level definition of "
-        "typedPath equals the streaming decoder. The model (tree decoder, goBox, typedPath, genericPath incl. batch/array/"
-        "row dispatch) is diffed against the real tryDecodeColumnarTyped, Decode(off) and convertColumnsToTyped on every body."),
+        "PARTIAL (one known finding class). Proved in Lean 4 for ALL byte strings b and any float semantics satisfying "
+        "FloatLaws (float32->float64 widening commutes with int64 conversion and the range tests): C02_full_partial — "
+        "Carve b -> observe(Decode typed=on b) = observe(Decode typed=off b) — via C02_hit_agrees_partial (a typed hit "
+        "inside Carve is accepted by the generic path with the same measurement, columns (type, values, null positions) and "
+        "row count, up to the value of a generated time column; covers ignored and duplicate keys, last-wins de-duplication, "
+        "non-array column values, the equal-length check, supplied or generated time) and C02_fallback_sound (a typed miss IS "
+        "the generic path). Carve (decidable) excludes exactly: bodies that decode to a map in which a value the typed path "
+        "only Skip()s — under a top-level str key other than m/columns/batch, or a non-array value inside a `columns` map — "
+        "is an array, a map or an ext value. On that class the full statement is false: C02_full_witness_skip (model) and the "
+        "harness (real code) show on != off; listed as known findings accept-differs:typed-Skip-vs-generic-Unmarshal:{error,panic}. "
+        "Also proved: the per-class theorems (C02_valueColumn_agrees, C02_timeColumn_agrees, C02_measurement_agrees, "
+        "C02_*Elem_agrees), C02_roundtrip_leaf (byte decoder vs encoder at every leaf width), C02_dup_nonarray_falls_back "
+        "(regression of fixed finding d7052e6), and by `decide` over tables regenerated from the current sources: C02_units_same "
+        "(thresholds 1e10/1e13/1e16 and multipliers identical in both files), C02_nonarray_dup_fallback, C02_accepted_kinds, "
+        "C02_guards, C02_code_classes, C02_prealloc. Validated only (differential harness, 0 disagreements): that goBox is the "
+        "library's boxing, that the tree-level typedPath equals the streaming decoder, the container arms of the round trip, "
+        "and the IEEE instance of FloatSem."),
     level_note="row-format record contents are compared ON vs OFF on the real code by the monitor but not modelled (measurement + accept/reject only)",
     technique="Lean 4 proof over an executable model of both decode paths (msgpack tree decoder, library boxing rules goBox, typed fast path, generic path + convertColumnsToTyped) for an abstract float semantics; regenerated constants/tables; differential correspondence of both paths on structure-aware MessagePack bodies",
     factgen=True,
